@@ -82,7 +82,7 @@ func (c *BindingManager) AddBinding(remoteDevice api.DeviceRemoteInterface, data
 	}
 
 	c.bindingEntries = append(c.bindingEntries, bindingEntry)
-	verifPoint("AddBinding.inserted", bindingEntry.Id)
+	verifPoint("AddBinding.inserted", bindingEntry.Id, c)
 
 	payload := api.EventPayload{
 		Ski:          remoteDevice.Ski(),
@@ -154,6 +154,7 @@ func (c *BindingManager) RemoveBinding(data model.BindingManagementDeleteCallTyp
 	}
 
 	c.bindingEntries = newBindingEntries
+	verifPoint("RemoveBinding.stored", c)
 
 	payload := api.EventPayload{
 		Ski:          remoteDevice.Ski(),
@@ -214,6 +215,7 @@ func (c *BindingManager) RemoveBindingsForEntity(remoteEntity api.EntityRemoteIn
 	}
 
 	c.bindingEntries = newBindingEntries
+	verifPoint("RemoveBindingsForEntity.stored", c)
 }
 
 func (c *BindingManager) Bindings(remoteDevice api.DeviceRemoteInterface) []*api.BindingEntry {
